@@ -151,7 +151,7 @@ def k_mbi_class():
     return {"ctr_init_vector": mbi.ctr_init_vector}, data
 
 
-def k_mbi_cfg(shared: bool = False):
+def k_mbi_cfg(shared: bool = False, sameobj: bool = False):
     """Encrypted MBI through load_from_config without CtrInitVector.
     shared=True: the SAME configuration dictionary object is used for every artifact of this kind in the process."""
     from spsdk.image.mbi.mbi import get_mbi_class
@@ -170,7 +170,11 @@ def k_mbi_cfg(shared: bool = False):
     if shared:
         _SHARED_CFG["mbi"] = cfg
     cls = get_mbi_class(cfg)
-    mbi = cls()
+    if sameobj:
+        # one builder object reconfigured for every artifact of this kind (a GUI / long-running service does this)
+        mbi = _SHARED_CFG.setdefault("mbi_obj", cls())
+    else:
+        mbi = cls()
     mbi.load_from_config(cfg)
     data = mbi.export()
     return {"ctr_init_vector": mbi.ctr_init_vector}, data
@@ -212,6 +216,10 @@ class _KeepDir:
     def __enter__(self):
         if not _HAB_WS:
             _HAB_WS.append(tempfile.mkdtemp(prefix="c17habws"))
+            import atexit
+            import shutil
+
+            atexit.register(shutil.rmtree, _HAB_WS[0], True)
         return _HAB_WS[0]
 
     def __exit__(self, *a):
@@ -261,7 +269,8 @@ def k_sb1():
 
 KINDS = {"sb20": k_sb20, "sb21": k_sb21, "advp": k_advp, "sb21cfg": k_sb21cfg, "mbi_class": k_mbi_class, "mbi_cfg": k_mbi_cfg,
          "otfad": k_otfad, "iee": k_iee, "bee": k_bee, "hab": k_hab, "hexstr": k_hexstr,
-         "sb21cfg_same": lambda: k_sb21cfg(True), "mbi_cfg_same": lambda: k_mbi_cfg(True), "hab_same": lambda: k_hab(True)}
+         "sb21cfg_same": lambda: k_sb21cfg(True), "mbi_cfg_same": lambda: k_mbi_cfg(True), "hab_same": lambda: k_hab(True),
+         "mbi_cfg_sameobj": lambda: k_mbi_cfg(False, True)}
 
 
 def fork_mode():
